@@ -8,6 +8,7 @@ package main
 // and queue automaton. See DESIGN.md section 5 (allocation group).
 
 import (
+	"reflect"
 	"context"
 	"errors"
 	"fmt"
@@ -53,6 +54,9 @@ type universe struct {
 	Preload []preSvc
 	// LBClass: the controller is started with --lb-class=<LBClass> (it then only handles Services of that class)
 	LBClass string
+	// DefaultIPMode: the API server fills in status.loadBalancer.ingress[].ipMode = "VIP" where an entry has an IP and no
+	// mode (LoadBalancerIPMode, on by default since Kubernetes 1.30, locked on in 1.32 - the API version MetalLB vendors)
+	DefaultIPMode bool
 }
 
 type preSvc struct {
@@ -143,8 +147,18 @@ func (sc sysClient) UpdateStatus(svc *v1.Service) error {
 	if len(upd.Annotations) == 0 {
 		upd.Annotations = nil
 	}
+	if s.u.DefaultIPMode && upd.Spec.Type == v1.ServiceTypeLoadBalancer {
+		vip := v1.LoadBalancerIPModeVIP
+		for i := range upd.Status.LoadBalancer.Ingress {
+			if upd.Status.LoadBalancer.Ingress[i].IP != "" && upd.Status.LoadBalancer.Ingress[i].IPMode == nil {
+				upd.Status.LoadBalancer.Ingress[i].IPMode = &vip
+			}
+		}
+	}
 	s.store.Put(upd)
-	s.svcQ.Add(svc.Namespace + "/" + svc.Name) // the controller sees its own write
+	if !reflect.DeepEqual(cur, upd) {
+		s.svcQ.Add(svc.Namespace + "/" + svc.Name) // the controller sees its own write (an update that changes nothing produces no event)
+	}
 	if s.crashAtWrite == 2 && s.writes == 1 {
 		panic(crashSignal{"after-write"})
 	}
